@@ -82,6 +82,7 @@ def run_one(args):
                         broker.queues[q].append((spec.Basic.Properties(), body, '', q))
         ref['chan_ids'] = [c.channel_id for c in chans]
         feed_seq = [0]
+        injected, raised = {}, {}
 
         def worker(ops, tname):
             def fn():
@@ -90,6 +91,7 @@ def run_one(args):
                     ch = chans[op[1]]
                     kind = op[0]
                     if kind == 'return':
+                        injected[op[1]] = injected.get(op[1], 0) + 1
                         broker.send_content(ch.channel_id, spec.Basic.Return(reply_code=312, reply_text='NO_ROUTE', exchange='', routing_key='nowhere'),
                                             spec.Basic.Properties(), b'R' * op[2], reply=False)
                     elif kind == 'declare':
@@ -133,7 +135,7 @@ def run_one(args):
                         if r is not (op[2] == 'ack'):
                             out['wrong'].append(('cpublish', op[2], r))
                   except amqpstorm.AMQPMessageError:
-                    out['returned_raised'] = out.get('returned_raised', 0) + 1     # the parked returned message, raised once
+                    raised[op[1]] = raised.get(op[1], 0) + 1     # the parked returned message, raised once
             return fn
         ts = [ctx.spawn(worker(ops, 'w%d' % i), 'w%d' % i) for i, ops in enumerate(sc['threads'])]
         for t in ts:
@@ -148,6 +150,17 @@ def run_one(args):
                 want = [b for (_, _, _, b) in bc.get('delivered', [])]
                 if consumed[i] != want:
                     out['wrong'].append(('deliveries', i, len(consumed[i]), len(want)))
+        # every returned message is reported exactly once: raised by some operation, or still parked
+        ctx.quiesce()
+        for i, ch in enumerate(chans):
+            parked = sum(1 for e in ch.exceptions if isinstance(e, amqpstorm.AMQPMessageError))
+            if injected.get(i, 0) != raised.get(i, 0) + parked:
+                out['wrong'].append(('returned-error-lost' if injected.get(i, 0) > raised.get(i, 0) + parked else 'returned-error-duplicated',
+                                     i, injected.get(i, 0), raised.get(i, 0), parked))
+        # nothing is pending any more: no channel may still hold a request registration or buffered replies
+        for i, ch in enumerate(chans):
+            if ch.rpc._request or ch.rpc._response:
+                out['wrong'].append(('residue', i, sorted(ch.rpc._request)[:4], len(ch.rpc._response)))
         out['done'] = True
 
     tr = chantrace.ChanTrace(ref, atomic=atomic)
